@@ -448,11 +448,13 @@ func (env *ExecEnv) Eval(expr string) (n int, err error) {
 	defer func() {
 		if e := recover(); e != nil {
 			l.Error(e.(error).Error())
+			l.wait()
 			err = l.err
 		}
 	}()
 
 	yyParse(l)
+	l.wait()
 	vpoint(l, vReturn)
 	return l.n, l.err
 }
